@@ -17,6 +17,8 @@ KEYWORDS = ["kw", "kw2", "akw", "$Forwarded", "Seen", "\\Seenish", "x\\Seen", "\
 # other spellings of the same flags (flag names are case-insensitive)
 CASE_TWINS = ["\\seen", "\\SEEN", "\\deleted", "\\DELETED", "\\flagged", "KW", "Kw", "\\recent", "\\RECENT", "$forwarded"]
 JUNKS = ["Junk", "NonJunk"]
+# tokens that are not RFC 3501 flags (none starts with "(" or ends with ")": STORE trims those)
+BAD_FLAGS = ["x)y", "a(b", 'a"b', "a%b", "x*y", "\\*", "a\\b", "a]b", "\\\\x", "\\", "k\x7fw", "k\x01w", "k\xe9"]
 
 
 # ---------------------------------------------------------------------------
@@ -225,6 +227,8 @@ def gen_history(rng, stream, nops):
             new = gen_flags(rng, store_pool)
             if stream == "junk" and rng.random() < 0.5 and item != "-FLAGS":
                 new.append(rng.choice(JUNKS))
+            if rng.random() < 0.08:
+                new.insert(rng.randint(0, len(new)), rng.choice(BAD_FLAGS + ["a{b"]))
             raw = item + (".SILENT" if silent else "")
             if rng.random() < 0.2:
                 raw = raw.lower()
@@ -240,7 +244,12 @@ def gen_history(rng, stream, nops):
             used.add(dest)
         elif r < 0.9:
             mb = rng.choice(list(MB.values())) if rng.random() < 0.4 else sel
-            h.append({"k": "append", "mb": mb, "fl": gen_flags(rng, pool), "paren": rng.random() < 0.85})
+            afl = gen_flags(rng, pool)
+            bad = rng.random() < 0.08
+            if bad:
+                # (no ")" here: APPEND reads its flag list up to the first ")" of the line)
+                afl.insert(rng.randint(0, len(afl)), rng.choice([f for f in BAD_FLAGS if ")" not in f]))
+            h.append({"k": "append", "mb": mb, "fl": afl, "paren": bad or rng.random() < 0.85, "litplus": bad or rng.random() < 0.2})
             cnt[mb] += 1
             used.add(mb)
         else:
@@ -288,10 +297,15 @@ def driver_ops(sc):
             body = body_of(nmsg)
             tg = tag()
             fl = ("(%s) " % " ".join(o["fl"])) if (o["paren"] or o["fl"]) else ""
-            ops.append({"op": "send", "conn": "A", "data": "%s APPEND %s %s{%d}\r\n" % (tg, MBN[o["mb"]], fl, len(body)), "until": "cont:" + tg})
-            plan.append(None)
-            ops.append({"op": "send", "conn": "A", "data": body + "\r\n", "until": "tag:" + tg})
-            plan.append(None)
+            if o.get("litplus"):
+                # non-synchronizing literal: line and data in one write, the reply is tagged either way
+                ops.append({"op": "send", "conn": "A", "data": "%s APPEND %s %s{%d+}\r\n%s\r\n" % (tg, MBN[o["mb"]], C.latin(fl.encode("latin-1")), len(body), body), "until": "tag:" + tg})
+                plan.append(None)
+            else:
+                ops.append({"op": "send", "conn": "A", "data": "%s APPEND %s %s{%d}\r\n" % (tg, MBN[o["mb"]], fl, len(body)), "until": "cont:" + tg})
+                plan.append(None)
+                ops.append({"op": "send", "conn": "A", "data": body + "\r\n", "until": "tag:" + tg})
+                plan.append(None)
         elif k == "store":
             fl = " ".join(o["new"])
             send("A", "%sSTORE %s %s %s" % ("UID " if o["uid"] else "", set_text(o["set"]), o["raw"], "(%s)" % fl if o["paren"] else fl), None)
@@ -438,7 +452,7 @@ def load_corpus():
 def describe(sc):
     """the commands of session A, for messages"""
     ops, _ = driver_ops(sc)
-    return [o["data"].strip() for o in ops if o.get("conn") == "A" and "data" in o and "FETCH 1:*" not in o["data"] and "Subject:" not in o["data"]]
+    return [o["data"].split("\r\n")[0].strip() for o in ops if o.get("conn") == "A" and "data" in o and "FETCH 1:*" not in o["data"] and not o["data"].startswith("Subject:")]
 
 
 def suite_sessions(chk, body_parts, post):
@@ -530,6 +544,55 @@ def suite_sessions(chk, body_parts, post):
     return True
 
 
+# ---------------------------------------------------------------------------
+# suite 3: which tokens STORE accepts as flags (message.ValidFlag through the protocol)
+
+def suite_flagsyntax(chk, body_parts, post):
+    cands = []
+    for b in range(1, 256):
+        if b in (9, 10, 11, 12, 13, 32):
+            continue        # blanks split the token, CR/LF end the line
+        cands.append(b"ab" + bytes([b]) + b"c")
+        cands.append(b"\\ab" + bytes([b]) + b"c")
+    cands += [f.encode("latin-1") for f in BAD_FLAGS] + [b"a{b", b"a}b", b"\\Seen", b"$MDNSent", b"a", b"\\a", b"a\\", b"\\\\", b"NonJunk-1_2.x", b"a+b", b"a~b", b"a:b"]
+    ops = [{"op": "open", "conn": "A"},
+           {"op": "send", "conn": "A", "data": "s1 LOGIN u@example.com pw\r\n", "until": "tag:s1"}]
+    body = body_of(1)
+    ops.append({"op": "send", "conn": "A", "data": "s2 APPEND INBOX {%d+}\r\n%s\r\n" % (len(body), body), "until": "tag:s2"})
+    ops.append({"op": "send", "conn": "A", "data": "s3 SELECT INBOX\r\n", "until": "tag:s3"})
+    for i, c in enumerate(cands):
+        ops.append({"op": "send", "conn": "A", "data": "f%d STORE 1 FLAGS.SILENT (%s)\r\n" % (i, C.latin(c)), "until": "tag:f%d" % i})
+    res = C.run_ops(ops, timeout=300)
+    obs = res.get("obs", [])
+    if res.get("crashed") or len(obs) != len(ops):
+        chk.broken_obligation("driver failed on the C10 flag-syntax suite: %s" % (res.get("stderr", "") or "")[:300], {"suite": "flagsyntax"})
+        return False
+    acc = []
+    for i, c in enumerate(cands):
+        r = obs[4 + i].get("recv", "")
+        acc.append(("f%d OK" % i) in r)
+    body_parts.append("Definition fs_cases : list (str * bool) := [\n%s].\n" % ";\n".join("(%s, %s)" % (C.coq_str(c), C.coq_bool(a)) for c, a in zip(cands, acc))
+                      + "Definition fs_bad := Eval vm_compute in diff_positions Bool.eqb 0%nat (map (fun c => valid_flag (fst c)) fs_cases) (map snd fs_cases).\nPrint fs_bad.\n")
+
+    def after(log):
+        bad = parse_nat_list(log, "fs_bad")
+        if bad is None:
+            chk.broken_obligation("could not read the flag-syntax results from Coq:\n" + log[-1000:])
+            return
+        chk.cov["evaluations"] += len(cands)
+        chk.cov["flagsyntax_cases"] = len(cands)
+        chk.cov["flagsyntax_accepted"] = sum(acc)
+        chk.cov["disagreements_checked"] += len(bad)
+        for i in bad[:5]:
+            if acc[i]:
+                chk.violation("STORE accepted %r as a flag: not an RFC 3501 flag (atom, optionally preceded by one backslash); FETCH FLAGS would print it" % cands[i],
+                              {"suite": "flagsyntax", "flag": C.latin(cands[i]), "accepted": True})
+            else:
+                chk.violation("STORE refused the RFC 3501 flag %r" % cands[i], {"suite": "flagsyntax", "flag": C.latin(cands[i]), "accepted": False})
+    post.append(after)
+    return True
+
+
 HEADER = C.COQ_CASE_HEADER + "From Raven Require Import Base.Enum Model.Flags Spec.FlagSet Model.FlagStore Spec.FlagHistory Spec.FlagOracle.\n"
 
 
@@ -539,6 +602,8 @@ def run(chk):
                        "non-trivial = non-empty current set, non-empty named list, valid data item")
     body_parts, post = [], []
     if not suite_direct(chk, body_parts, post):
+        return
+    if not suite_flagsyntax(chk, body_parts, post):
         return
     if not suite_sessions(chk, body_parts, post):
         return
@@ -569,5 +634,11 @@ def replay(path):
                 print("C:", o["data"].strip())
                 print("S:", r.get("recv", "").strip().replace("\r\n", "\n   "))
     else:
+        if d.get("suite") == "flagsyntax":
+            f = d["flag"]
+            print(C.run_ops([{"op": "open", "conn": "A"}, {"op": "send", "conn": "A", "data": "s1 LOGIN u@example.com pw\r\n", "until": "tag:s1"},
+                             {"op": "send", "conn": "A", "data": "s2 APPEND INBOX {%d+}\r\n%s\r\n" % (len(body_of(1)), body_of(1)), "until": "tag:s2"},
+                             {"op": "send", "conn": "A", "data": "s3 SELECT INBOX\r\n", "until": "tag:s3"},
+                             {"op": "send", "conn": "A", "data": "f STORE 1 FLAGS (%s)\r\n" % f, "until": "tag:f"}])["obs"][-1])
         print(json.dumps(d, indent=1))
     return 0
